@@ -342,8 +342,59 @@ def many_components_corpus(ctx):
                                   f"{s['num_pred_instances']} and {s['num_ref_instances']} instances (fp = {s['fp']}, fn = {s['fn']})", inp, impl=s, key={"kind": "zero-tp"})
 
 
+def all_rejected_corpus(ctx):
+    """instances on both sides, every candidate pair evaluated and every one rejected by the decision threshold: zero true positives,
+    so the handler's NORMAL value and the configured empty-list value are reported (not statistics of the rejected scores)"""
+    rng = ctx.rng
+    ref = np.zeros((4, 16), np.uint8)
+    pred = np.zeros((4, 16), np.uint8)
+    ref[0:2, 0:6], ref[2:4, 9:15] = 1, 2
+    pred[0:2, 4:8], pred[2:4, 13:16] = 1, 2          # IoU 1/4 and 1/7
+    for it in ("MATCHED", "UNMATCHED", "SEMANTIC"):
+        for dm, t in (("IOU", (1, 2)), ("DSC", (3, 4))):
+            hnd = rand_handler(rng, ["IOU", "DSC", "RVD"])
+            cfg = E.mk_cfg(it, ["IOU", "DSC", "RVD"], matcher=E.naive("IOU", (1, 20)) if it != "MATCHED" else None, handler=hnd, decision=[dm, {"q": list(t)}])
+            ctx.count("all_candidates_rejected_by_decision")
+            one_case(ctx, pred, ref, cfg, "NORMAL", "corpus.all-rejected")
+
+
+def default_arguments_history(ctx):
+    """evaluators that rely on the constructor's default metric list, before and after another evaluator was constructed with a
+    decision metric outside that list: a zero-TP scene under a handler that defines exactly the default metrics is reported, not refused"""
+    M = impl.METRICS
+    tbl = {m: z for m, z in rand_handler(ctx.rng, ["DSC", "IOU", "ASSD", "RVD"])["table"] if m != "clDSC"}
+    hspec = {"table": [[m, z] for m, z in tbl.items()], "empty_list_std": "NAN"}
+    z = np.zeros((4, 6), np.uint8)
+    a = z.copy()
+    a[1:3, 1:4] = 1
+    inp = {"default_arguments_history": True, "handler": hspec}
+    ctx.case(inp, True)
+    ctx.count("default_argument_histories")
+    res = []
+    for stage in ("before", "after"):
+        try:
+            with impl.quiet():
+                ev = impl.Panoptica_Evaluator(expected_input=impl.INPUT["MATCHED"], edge_case_handler=impl.mk_handler(dict(hspec, form="full")))
+                out = ev.evaluate(z, a)["ungrouped"][0]
+                res.append({k: getattr(out, k) for k in ("tp", "fp", "fn", "sq", "sq_dsc", "sq_rvd")})
+                if stage == "before":
+                    try:
+                        impl.Panoptica_Evaluator(expected_input=impl.INPUT["MATCHED"], decision_metric=M["clDSC"], decision_threshold=0.5)
+                    except Exception:
+                        ctx.count("decision_metric_outside_metric_list_refused")
+        except Exception as e:
+            ctx.violation(f"C08 violated: an evaluator with the default metric list and a handler defining exactly those metrics cannot report a zero-TP scene "
+                          f"({stage} another evaluator was constructed with a decision metric outside the list): {type(e).__name__}: {str(e)[:140]}", inp, key={"kind": "raises"})
+            return
+    if len(res) == 2 and any(not same_value(res[0][k], res[1][k]) for k in res[0]):
+        ctx.violation(f"C08 violated: the zero-TP report of a default-metrics evaluator changed after another evaluator was constructed: {res[0]} -> {res[1]}", inp,
+                      key={"kind": "zero-tp"})
+
+
 def run(ctx):
     many_components_corpus(ctx)
+    all_rejected_corpus(ctx)
+    default_arguments_history(ctx)
     entry_form_cases(ctx, ctx.scale(150, 1500))
     single_group_cases(ctx, ctx.scale(40, 400))
     run_cases(ctx, ctx.scale(900, 9000), "rand")
@@ -361,6 +412,9 @@ def replay(ctx, rec):
         return
     if i.get("groups"):
         single_group_cases(ctx, 60)
+        return
+    if i.get("default_arguments_history"):
+        default_arguments_history(ctx)
         return
     ev = None
     if i.get("history"):
